@@ -13,3 +13,16 @@ reg("C20",
     "Trusted: projection of a Style to an id by ==; use_theme blocks well nested; 4 names / 2 style ids / 9 themes.",
     "TLA+ spec ThemeStack.tla; TLC exhaustive model check + TLC-generated histories replayed on the real Console + TLC trace validation of recorded histories",
     "DESIGN.md §4 C20")
+
+reg("C05",
+    "TextOps.tla gives every public Text editing call a reference meaning on sequences of styled characters; TLC (M1) exhaustively "
+    "checks the laws of that semantics (pieces concatenate back, crops are prefixes, style-only calls keep characters, widths/lengths "
+    "hit targets, survivors keep style) over all histories of 2 (quick) / 3 (thorough) calls from a 100-call operation set, and generates "
+    "(M2) every 2-call history plus simulated 7-call behaviours; these and seeded random histories (2..12 calls, arguments negative / at / "
+    "beyond the ends, control, wide and zero-width characters, overlapping spans) are executed on a real rich.text.Text and TLC validates, "
+    "call by call, len(), plain and the effective style of every surviving character against the model (trace validation).  Bounded; "
+    "conformance, not proof.",
+    "Trusted: projection by Text.render (style -> attribute/colour ids); argument widths from rich.cells (C13). Domain: non-negative counts/"
+    "widths, sorted in-range divide offsets, non-self-overlapping separators; wrap() is C02; from_markup is C04.",
+    "TLA+ spec TextOps.tla; TLC exhaustive check of the reference semantics' laws + TLC-generated (exhaustive and -simulate) call histories replayed on real Text objects + TLC trace validation of recorded histories",
+    "DESIGN.md §4 C05")
